@@ -292,7 +292,7 @@ def run(pid, tier, merge=False):
                    tables=len(outs), queries_validated=nq, events_validated=vstats["events"], layout_features=dict(feats),
                    checks=PROP_CHECKS[pid], other_check_failures=len(others), known_findings_seen=sorted(seen_known))
         if merge:
-            p = os.path.join(C.VERIF, "evidence", pid + ".json")
+            p = os.path.join(C.evidence_dir(), pid + ".json")
             with open(p) as f:
                 ev = json.load(f)
             ev["coverage"]["table_level"] = cov
